@@ -39,7 +39,7 @@ type Graph struct {
 	cg      *callgraph.Graph
 	funcs   []*ssa.Function
 	// FlagRead recognises c.String/Int/Bool/IsSet("name") calls: returns a source label.
-	FlagRead func(call *ssa.Call) (string, bool)
+	FlagRead func(call *ssa.Call) ([]string, bool)
 	// ExternalWrites: an external call that fills a structure (gcfg.ReadInto): returns the named struct
 	// types whose every field receives the source label.
 	ExternalWrites func(call *ssa.Call) (label string, into []types.Type)
@@ -249,8 +249,10 @@ func (g *Graph) addCall(fn *ssa.Function, ci ssa.CallInstruction) {
 	}
 	if call, ok := ci.(*ssa.Call); ok {
 		if g.FlagRead != nil {
-			if label, ok := g.FlagRead(call); ok {
-				g.add(res, Node("flag:"+label), false, "flag")
+			if labels, ok := g.FlagRead(call); ok {
+				for _, label := range labels {
+					g.add(res, Node("flag:"+label), false, "flag")
+				}
 				return
 			}
 		}
